@@ -100,11 +100,23 @@ def main():
     if b and not m: problems.append("PROBLEM _GD_DoRaw: seek condition not found")
     flags["fix_negseek"] = bool(m and re.search(r"s0\s*>=\s*0", m.group(1)))
 
+    b = need("iopos.c", "_GD_GetIOPos")
+    m1 = re.search(r"case GD_PHASE_ENTRY:(.*?)break;", b, re.S)
+    m2 = re.search(r"case GD_PHASE_ENTRY:(.*?)break;", s, re.S)
+    if not m1 or not m2: problems.append("PROBLEM PHASE case not found in _GD_GetIOPos/_GD_Seek")
+    g_new = bool(m1 and re.search(r"pos\s*-=\s*E->EN\(phase,shift\)", m1.group(1)))
+    g_old = bool(m1 and re.search(r"pos\s*\+=\s*E->EN\(phase,shift\)", m1.group(1)))
+    s_new = bool(m2 and re.search(r"offset\s*\+\s*E->EN\(phase,shift\)", m2.group(1)))
+    s_old = bool(m2 and re.search(r"offset\s*-\s*E->EN\(phase,shift\)", m2.group(1)))
+    if not ((g_new and s_new) or (g_old and s_old)):
+        problems.append("PROBLEM PHASE shift: _GD_GetIOPos and _GD_Seek not recognised as one of the two consistent conventions")
+    flags["fix_phase_sign"] = g_new and s_new
+
     out = ["(* generated by translate/tr_c02cfg.py from %s/src -- do not edit *)" % REPO,
            "From GD Require Import C02.Model.",
            "Definition tree_cfg : cfg :=",
            "  {| " + ";\n     ".join("%s := %s" % (k, "true" if flags[k] else "false") for k in
-                                     ["fix_bz_rewind", "fix_bz_eof", "fix_here", "fix_text_pseudo", "fix_leak", "fix_negseek"]) + " |}."]
+                                     ["fix_bz_rewind", "fix_bz_eof", "fix_here", "fix_text_pseudo", "fix_leak", "fix_negseek", "fix_phase_sign"]) + " |}."]
     os.makedirs(os.path.join(VERIF, "coq", "Gen"), exist_ok=True)
     p = os.path.join(VERIF, "coq", "Gen", "C02Cfg.v")
     txt = "\n".join(out) + "\n"
